@@ -2,6 +2,7 @@
 C11 — the replay version selects matching definitions, controller and packet table.
 -/
 import ReplayModel.Version
+import ReplayModel.Pipeline
 namespace ReplayModel.C11
 open ReplayModel
 
@@ -139,5 +140,46 @@ example : (selectWows ⟨["0_9_4", "0_9_4_2442770"], ["0_9_4", "0_9_4_2442770"],
 theorem split_bundle_example :
     (selectWows ⟨["13_0_0"], ["13_0_0", "13_0_0_7983292"], ["13_0_0", "13_0_0_7983292"]⟩
       ["13", "0", "0", "7983292"] |>.toOption) = some ⟨"13_0_0_7983292", "13_0_0", true⟩ := by decide +kernel
+
+/-! ### the top of the pipeline: `ReplayParser.get_info` (model: `ReplayModel/Pipeline.lean`) -/
+
+/-- **A version that does not resolve is refused at the top level**: strict mode raises,
+lenient mode returns no summary, with the loader's "not supported" text where the refusal is a
+`RuntimeError` — and no packet of the stream is played with some other version's data. -/
+theorem getInfo_refused (env : Env) (strict : Bool) (ext : String) (file : Bytes) (info : ReplayInfo) (vs : String)
+    (r : Refusal) (hc : readContainer env.D env.inflate ext file = .ok info)
+    (hv : env.versionOf info.game info.engine = some vs)
+    (hs : selectVersion env.bundled info.game vs = .error r) :
+    getInfo env strict ext file = if strict then .raises else .returns info none r.message := by
+  unfold getInfo
+  simp only [hc, hv, hs]
+
+/-- **What is played is exactly the selection**: when the version resolves, the hidden result
+(when there is one) is the play of the file's stream with the definitions directory, the
+controller module and the packet table of that one `Selection` — both loaders are asked for the
+names the resolution returned, nothing else. -/
+theorem getInfo_uses_selection (env : Env) (strict : Bool) (ext : String) (file : Bytes) (info info' : ReplayInfo) (vs : String)
+    (sel : Selection) (res : PlayResult) (error : Option String)
+    (hc : readContainer env.D env.inflate ext file = .ok info)
+    (hv : env.versionOf info.game info.engine = some vs)
+    (hs : selectVersion env.bundled info.game vs = .ok sel)
+    (h : getInfo env strict ext file = .returns info' (some res) error) :
+    info' = info ∧ error = none ∧
+    res = play env.jsonOk { defs := env.defsOf info.game sel.defs, masks := env.masks,
+                            dialect := dialectOf info.game sel, reg := env.regOf info.game sel.controller } strict {} info.stream := by
+  unfold getInfo at h
+  simp only [hc, hv, hs] at h
+  cases he : (play env.jsonOk (configOf env info.game sel) strict {} info.stream).ending with
+  | finished =>
+    rw [he] at h
+    simp only [GetInfo.returns.injEq, Option.some.injEq] at h
+    exact ⟨h.1.symm, h.2.2.symm, h.2.1.symm⟩
+  | headerShort => rw [he] at h; cases strict <;> simp at h
+  | raised i e => rw [he] at h; cases strict <;> simp at h
+
+/-- the wows table switch seen from the top: the dialect is the renumbered one iff the version is ≥ 12.6.0 -/
+theorem dialectOf_wows (sel : Selection) :
+    dialectOf .wows sel = if sel.newTable then wowsNew else wowsOld := rfl
+
 
 end ReplayModel.C11
